@@ -30,6 +30,17 @@ type vfC04Inst struct {
 	firedTO  bool
 }
 
+// applies: default validators apply to every message, a topic's validator to the messages of that topic.
+func (in *vfC04Inst) applies(v vfValCfg, label string) bool {
+	if v.Topic == "" {
+		return true
+	}
+	if spec, ok := in.g.msgs[strings.TrimPrefix(label, "local:")]; ok && spec.Topic != "" {
+		return v.Topic == spec.Topic
+	}
+	return v.Topic == "t" // local publications of this check go to topic t
+}
+
 // expected final verdict for a message given which validators apply
 func (in *vfC04Inst) expected(local bool, label string) string {
 	res := "A"
@@ -58,6 +69,9 @@ func (in *vfC04Inst) expected(local bool, label string) string {
 	}
 	// inline stage (everything is inline for a local publication): stops at the first Reject
 	for _, v := range in.vals {
+		if !in.applies(v, label) {
+			continue
+		}
 		if v.Inline || local {
 			if !local {
 				// a remote message whose first inline validator was never invoked never entered validation: the
@@ -90,7 +104,7 @@ func (in *vfC04Inst) expected(local bool, label string) string {
 		return res
 	}
 	for _, v := range in.vals {
-		if !v.Inline {
+		if !v.Inline && in.applies(v, label) {
 			x := verdictOf(v)
 			// an asynchronous validator that was never invoked for this message although the asynchronous stage
 			// was reached was throttled (its own concurrency limit or the global one): "validation is throttled"
@@ -399,6 +413,26 @@ func vfC04ThrottleScenarios(thorough bool) []*vfGWScenario {
 				Cfg: vfGWCfg{Router: "gossip", Peers: peers, Topics: []string{"t"}, Params: "d2", Scoring: true, ScoreTopics: true, SeenTTL: 3600, Validators: vals, Workers: 1, ValQueue: qsize, Tracer: true,
 					Prefix: []string{"conn:a", "conn:b", "conn:c", "sub:a:t", "sub:b:t", "sub:c:t", "join:t"}},
 				Alphabet: []string{"pub:a:m1", "pub:a:m2", "pub:b:m3", "pub:b:m1", "pub:c:m1", "vrel:V1:m1:" + vd, "vrel:V1:m2:" + vd, "vrel:V1:m3:" + vd}, Msgs: q3, Depth: 6})
+		}
+	}
+	// several default validators and two topics with different validators, messages of both topics queued behind
+	// a busy worker: each message is judged by the default validators and by ITS topic's validator
+	for _, ndef := range []int{1, 2, 3, 4, 5} {
+		for _, vts := range [][2]string{{"R", "A"}, {"A", "R"}, {"I", "A"}} {
+			m3 := map[string]vfMsgSpec{"m0": {Topic: "u", Author: "x", Seq: 9, Size: 8}, "m1": {Topic: "t", Author: "x", Seq: 1, Size: 8}, "m2": {Topic: "u", Author: "x", Seq: 2, Size: 8}}
+			var vals []vfValCfg
+			for i := 1; i <= ndef; i++ {
+				v := vfValCfg{Name: fmt.Sprintf("D%d", i), Inline: true, Verdict: "A"}
+				if i == 1 {
+					v.Gated, v.GateOnly = true, []string{"m0"}
+				}
+				vals = append(vals, v)
+			}
+			vals = append(vals, vfValCfg{Name: "Vt", Topic: "t", Inline: true, Verdict: vts[0]}, vfValCfg{Name: "Vu", Topic: "u", Inline: true, Verdict: vts[1]})
+			out = append(out, &vfGWScenario{Name: fmt.Sprintf("two-topics-%ddefault[%s,%s]", ndef, vts[0], vts[1]),
+				Cfg: vfGWCfg{Router: "gossip", Peers: peers, Topics: []string{"t", "u"}, Params: "d2", Scoring: true, ScoreTopics: true, SeenTTL: 3600, Validators: vals, Workers: 1,
+					Prefix: []string{"conn:a", "conn:b", "conn:c", "sub:a:t", "sub:b:t", "sub:c:t", "sub:a:u", "sub:b:u", "sub:c:u", "join:t", "join:u"}},
+				Alphabet: []string{"pub:a:m0", "pub:a:m1", "pub:b:m2", "pub:b:m1", "vrel:D1:m0:A"}, Msgs: m3, Depth: 5})
 		}
 	}
 	for _, sh := range shapes {
